@@ -16,7 +16,7 @@ PROP = dict(
                 "field never holds a store buffer, so overwriting it cannot change what any store state serves; non-pointer/non-struct arguments (incl. the untyped nil and nil struct pointers of any shape), empty names, unsupported "
                 "types without the json verb and structs without tagged fields - and only those - are rejected before any request; every field is processed whatever the "
                 "others do, the reported errors are exactly the failing fields, and whether a field fails depends on that field alone. Tied to the code by run-time generated "
-                "struct types driven through NewStore(Structs), ParseFields+Apply and ParseFields -> NewStore{Secrets: f.Secrets()} -> Apply with the returned slice scribbled on (with and without AllowLookup) against a scripted StoreClient; requested names, both results of Secrets(), "
+                "struct types driven through NewStore(Structs), ParseFields+Apply and ParseFields -> NewStore{Secrets: f.Secrets()} -> Apply with the returned slice scribbled on, and ONE parsed Fields applied twice (to a second store with other bytes, or to the same store across a Refresh; fields compared after each Apply) (with and without AllowLookup) against a scripted StoreClient; requested names, both results of Secrets(), "
                 "error class, number of joined errors, every field's content, handle binding after a refresh and the store's bytes after overwriting each []byte field "
                 "are compared with the model inside coqc."),
     level_note=("Trusted: Coq kernel+VM; the tie is differential (sampled shapes, 0-8 members, one level of embedding by value). Inputs of the model, not predictions: what "
@@ -26,8 +26,8 @@ PROP = dict(
                 "embedded pointers (a tagged field promoted through a nil embedded pointer still panics in reflect: outside the domain, docs/C20.md), tagged embedded members. Nil arguments (untyped nil, nil struct pointer) are modelled and compared since the F9 repair."),
     rule=("random struct shapes built with reflect.StructOf (0-8 members, 12 field types incl. named BinaryUnmarshaler types by value/nil pointer/set pointer, 14% members are "
           "structs embedded by value with colliding promoted names; tags name / name,json / other verbs / empty names; 70% of shapes forced valid; argument: pointer 86%, struct by value 4%, non-struct 4%, untyped nil 2%, nil pointer to the struct 4%), clean prefixes (30% empty, "
-          "else 1-3 segments) and names, random values incl. empty, non-UTF-8, valid and invalid JSON and values the unmarshaler refuses; 30% through NewStore(Structs), 25% declare-via-Secrets() "
-          "(tag names deliberately unsorted, 40% with a name used twice, the returned slice sorted/reversed/overwritten/cleared/rotated before Apply), 45% "
+          "else 1-3 segments) and names, random values incl. empty, non-UTF-8, valid and invalid JSON and values the unmarshaler refuses; 30% through NewStore(Structs), 20% re-apply (one Fields, two Applies), 20% declare-via-Secrets() "
+          "(tag names deliberately unsorted, 40% with a name used twice, the returned slice sorted/reversed/overwritten/cleared/rotated before Apply), 30% "
           "ParseFields+Apply on a store with a random declared subset; a quarter of the cases with unclean prefixes/tag names (trailing and doubled slashes, '.', '..', rooted); plus 187 exhaustive path.Join rows (136672 pairs; 770k thorough), AllowLookup on/off, 12% of names missing at the service; plus path.Join pairs; one case = one run; "
           "non-trivial if the argument is a struct pointer with at least two tagged leaf fields and the run got as far as Apply; distinct by input"),
     explain=("the names requested or returned by Secrets(), the error class/number of joined errors, a field's content, a handle's binding, an untagged field, or the store's bytes after a []byte field "
